@@ -222,7 +222,7 @@ func (u *universe) ty(e *sexp) types.Type {
 			ms = append(ms, types.NewFunc(token.NoPos, u.pkg(0), unesc(m), methodSig(unesc(m), nil)))
 		}
 		return types.NewInterfaceType(ms, nil).Complete()
-	case "nm", "nmm":
+	case "nm", "nmm", "nmp":
 		if len(a) < 3 || (e.list[0].atom == "nm" && len(a) != 3) || a[0].isL || a[1].isL {
 			bad("bad nm")
 		}
@@ -242,8 +242,13 @@ func (u *universe) ty(e *sexp) types.Type {
 		}
 		n := types.NewNamed(types.NewTypeName(token.NoPos, u.pkg(pi), name, nil), under.Underlying(), nil)
 		for _, m := range atoms(a[3:]) {
-			// value receiver: T and *T have the method
-			recv := types.NewVar(token.NoPos, u.pkg(pi), "x", n)
+			// nmm: value receiver (T and *T have the method); nmp: pointer receiver (only *T has it, and the method set of
+			// T is empty although the type declares methods)
+			var rt types.Type = n
+			if e.list[0].atom == "nmp" {
+				rt = types.NewPointer(n)
+			}
+			recv := types.NewVar(token.NoPos, u.pkg(pi), "x", rt)
 			n.AddMethod(types.NewFunc(token.NoPos, u.pkg(pi), unesc(m), methodSig(unesc(m), recv)))
 		}
 		u.named[key] = n
